@@ -1275,13 +1275,29 @@ def c14_sections(rng, tier):
     span = [float(rng.uniform(0.5, 3)) for _ in range(n)]; sweep = [float(rng.uniform(0, 0.4)) for _ in range(n)]
     surface = dict(name="surface", num_sections=n, sec_name=["sec%d" % i for i in range(n)], symmetry=True, taper=taper, span=span,
                    sweep=sweep, root_chord=float(rng.uniform(1, 3)), meshes="gen-meshes", nx=nx, ny=ny)
+    root = n - 1
+    if CURRENT_K % 2 == 1:
+        # a full-span multi-section surface: sections on both sides of the root section
+        root = int(rng.integers(0, n))
+        surface["symmetry"] = False; surface["root_section"] = root
     with quiet():
         mesh, secs = gen_sections(surface)
     out = []
-    case = dict(sections=n, nx=nx, ny=ny, taper=taper)
+    case = dict(sections=n, nx=nx, ny=ny, taper=taper, symmetry=surface["symmetry"], root_section=root)
     for i, sm in enumerate(secs):
         if sm.shape != (nx, ny[i], 3):
             out.append(_fail("section mesh has the wrong shape", list(sm.shape), [nx, ny[i], 3], **case))
+    # every section has its requested span and its outboard chord is taper times its inboard chord
+    for i, sm in enumerate(secs):
+        if i == root and not surface["symmetry"]:
+            continue        # the root section of a full-span surface is built by its own rule
+        ext = abs(float(sm[0, -1, 1] - sm[0, 0, 1]))
+        if abs(ext - span[i]) > 1e-12 * span[i]:
+            out.append(_fail("a section does not have its requested span", ext, span[i], section=i, **case))
+        inb, outb = (-1, 0) if i <= root else (0, -1)
+        c_in = abs(float(sm[-1, inb, 0] - sm[0, inb, 0])); c_out = abs(float(sm[-1, outb, 0] - sm[0, outb, 0]))
+        if abs(c_out - taper[i] * c_in) > 1e-12 * max(c_in, 1e-30):
+            out.append(_fail("the outboard chord of a section is not taper times its inboard chord", c_out, taper[i] * c_in, section=i, **case))
     for i in range(n - 1):
         gap = float(np.max(np.abs(secs[i][:, -1, :] - secs[i + 1][:, 0, :])))
         if gap > 1e-12:
